@@ -2543,10 +2543,11 @@ class SSHConnection(SSHPacketHandler, asyncio.Protocol):
                 self._auth.cancel()
                 self._auth = None
 
-            self.create_task(self._finish_userauth(begin_auth, method, packet))
+            self.create_task(self._finish_userauth(begin_auth, username,
+                                                   method, packet))
 
-    async def _finish_userauth(self, begin_auth: bool, method: bytes,
-                               packet: SSHPacket) -> None:
+    async def _finish_userauth(self, begin_auth: bool, username: str,
+                               method: bytes, packet: SSHPacket) -> None:
         """Finish processing a user authentication request"""
 
         if not self._owner: # pragma: no cover
@@ -2557,10 +2558,15 @@ class SSHConnection(SSHPacketHandler, asyncio.Protocol):
             # pylint: disable=no-member
             await cast(SSHServerConnection, self).reload_config()
 
-            result = cast(SSHServer, self._owner).begin_auth(self._username)
+            result = cast(SSHServer, self._owner).begin_auth(username)
 
             if inspect.isawaitable(result):
                 result = await cast(Awaitable[bool], result)
+
+            if username != self._username:
+                # Another auth request changing the user arrived while
+                # we were waiting, so this request no longer applies
+                return
 
             if not result:
                 await self.send_userauth_success()
@@ -2573,7 +2579,7 @@ class SSHConnection(SSHPacketHandler, asyncio.Protocol):
             self._auth.cancel()
 
         self._auth = lookup_server_auth(cast(SSHServerConnection, self),
-                                             self._username, method, packet)
+                                             username, method, packet)
 
     def _process_userauth_failure(self, _pkttype: int, _pktid: int,
                                   packet: SSHPacket) -> None:
